@@ -611,11 +611,12 @@ def run_parallel(ctx, h, lines, jobs, fdrot=0):
     out = [None] * len(lines)
     for i in range(jobs):
         o, crash = res[i]
+        fd = FDTYPES[(i + fdrot) % len(FDTYPES)]
         if crash:
             k = crash[1]
-            return None, (crash[0], chunks[i][min(k, len(chunks[i]) - 1)], crash[2])
+            return None, (crash[0] + " fd=" + fd, chunks[i][min(k, len(chunks[i]) - 1)], crash[2])
         for j, l in enumerate(o):
-            out[i + j * jobs] = l
+            out[i + j * jobs] = (l, fd)
     return out, None
 
 
@@ -724,14 +725,14 @@ def judge(sc):
     return failures, (not failures and sc["impl"] != sc["model"])
 
 
-def evaluate(ctx, hs, B, scs):
+def evaluate(ctx, hs, B, scs, fd="n"):
     """fill impl / implfull / model / specout for a few scenarios (sequentially); returns False on a crash"""
     groups = {}
     for sc in scs:
         groups.setdefault(sc["B"] if sc["kind"] in STREAMK else B, []).append(sc)
     for key, g in groups.items():
         lines = [sc["line"] for sc in g] + [sc["full"] for sc in g if not is_hard(sc["script"])]
-        out, crash = run_harness(ctx, hs[key], lines)
+        out, crash = run_harness(ctx, hs[key], lines, fd)
         if crash:
             return False
         it = iter(out[len(g):])           # run_harness has checked len(out) == len(lines)
@@ -769,7 +770,7 @@ def shrink(ctx, hs, B, small, bx, sc, rounds=8):
                 cands.append(" ".join(w[:f] + [",".join(t) if t else "-"] + w[f + 1:]))
         cands = cands[:120]
         scs = [x for x in (parse_line(c, B, small, bx) for c in cands) if x is not None]
-        if not scs or not evaluate(ctx, hs, B, scs):
+        if not scs or not evaluate(ctx, hs, B, scs, sc.get("fd") or "n"):
             break
         nxt = None
         for x in scs:
@@ -793,14 +794,14 @@ def classify(ctx, sc, stats, env=None):
     stats[which] += 1
     if stats[which] > 5:
         return True
-    orig = sc["line"]
+    orig, orig_fd = sc["line"], sc.get("fd") or "n"
     try:
         sc = shrink(ctx, *env, sc) if env else sc
         failures, corr = judge(sc)
     except Exception as e:                       # shrinking is best effort
         ctx.log("shrink failed:", e)
     rp = {"line": sc["line"], "full": sc["full"], "spec": sc.get("spec"), "B": sc["B"], "impl": sc["impl"],
-          "implfull": sc.get("implfull"), "model": sc["model"], "original_line": orig}
+          "implfull": sc.get("implfull"), "model": sc["model"], "original_line": orig, "fd": orig_fd}
     if failures:
         rp["failures"] = failures
         ctx.violation("split:%s:%s" % (kind, vlib.sha(sc["line"])[:12]),
@@ -873,15 +874,15 @@ def inprocess(ctx, hs, B, small, bx):
         if crash:
             what, line, err = crash
             ctx.violation("crash:%s" % vlib.sha(line)[:12], "real code aborted (%s) on scenario: %s :: %s" % (what, line[:300], err[-600:]),
-                          {"line": line, "B": key, "stderr": err})
+                          {"line": line, "B": key, "stderr": err, "fd": what.rsplit("fd=", 1)[-1] if "fd=" in what else "n"})
             crashed = True
             continue
         if len(out) != len(lines) + len(fulls) or any(o is None for o in out):
             raise vlib.CheckFailure("harness B=%s answered %d of %d lines" % (key, len([o for o in out if o is not None]), len(lines) + len(fulls)))
         it = iter(out[len(lines):])
-        for sc, o in zip(g, out):
-            sc["impl"] = o
-            sc["implfull"] = next(it) if not is_hard(sc["script"]) else None
+        for sc, (o, fd) in zip(g, out):
+            sc["impl"], sc["fd"] = o, fd          # fd: the kind of descriptor the streams of this scenario were given
+            sc["implfull"], sc["fdfull"] = next(it) if not is_hard(sc["script"]) else (None, None)
     if crashed:
         return scen, stats, ncorpus, nfixed
     extra = [(sc, k) for k in ("spec", "lines") for sc in scen if sc.get(k) and not is_hard(sc["script"])]
@@ -1044,7 +1045,7 @@ def replay(ctx, path):
     if key not in hs:
         key = B
     lines = [rp["line"]] + ([rp["full"]] if rp.get("full") else [])
-    out, crash = run_harness(ctx, hs[key], lines)
+    out, crash = run_harness(ctx, hs[key], lines, rp.get("fd") or "n")
     model = ctx.driver(["c12"], "\n".join(lines + ([rp["spec"]] if rp.get("spec") else [])) + "\n")
     print("scenario:", rp["line"][:1000])
     print("impl    :", out, "crash:", crash)
